@@ -277,6 +277,7 @@ func checkC10(c *Ctx, r *Report) {
 	checkC10Tables(c, r)
 
 	// ---------------- C10.d linking in both directions
+	checkEveryDeclaredParamKept(c, r, "C10.d")
 	checkC10Linking(c, r)
 
 	// ---------------- C10.e severities
